@@ -299,13 +299,16 @@ func runChild(c *hx.Ctx, dir, in, outf string, n, start int, res []scnResult) (i
 	if begun > last {
 		bad = begun
 	}
-	if bad >= n {
-		c.HarnessError("child failed after the last scenario: %v\n%s", werr, tail(errText, 2000))
-		return 0, false
-	}
-	if begun < bad {
-		// died before starting a scenario: machinery problem, not an observation
-		c.HarnessError("child failed before scenario %d started: %v\n%s", bad, werr, tail(errText, 2000))
+	if bad >= n || begun < bad {
+		// the child died between two scenarios or after the last one.  A panic or a fatal error of the Go
+		// runtime then comes from goroutines an earlier scenario left behind (the Mux's reader, a closer):
+		// it is an observation about the implementation and is attributed to the scenario that finished last
+		if last >= start && (strings.Contains(errText, "panic:") || strings.Contains(errText, "fatal error:")) {
+			res[last] = scnResult{Crash: fmt.Sprintf("%v (after the scenario's calls had returned): %s", werr, tail(errText, 3000))}
+			return last + 1, true
+		}
+		// anything else is a problem of the machinery, not an observation
+		c.HarnessError("child failed outside a scenario (next: %d of %d): %v\n%s", bad, n, werr, tail(errText, 2000))
 		return 0, false
 	}
 	res[bad] = scnResult{Crash: fmt.Sprintf("%v: %s", werr, tail(errText, 3000))}
